@@ -539,6 +539,9 @@ def gen_c12(tier, seed):
                     c.new(0, bk, tr); G.fill(c, 0, L, rng)
                     if extra: c.add("reserve 0 %d" % extra)
                     c.add("views 0"); c.add("probe 0"); c.add("info 0")
+                    if bk in ("heap", "reloc", "empty"):
+                        # the storage pointer a vector is rebuilt around (from_raw_parts trusts the handle): same extents, same alignment
+                        c.add("rawrt 0"); c.add("views 0"); c.add("probe 0")
                     room = (cap - L) if cap is not None else None
                     for k in (1, 2):
                         if room is not None and k > room: continue
@@ -552,7 +555,9 @@ def gen_c12(tier, seed):
                         c = G.Case("vw%d" % n, layout); n += 1
                         c.new(0, bk, tr); G.fill(c, 0, max(L, 1), rng)
                         for h in how: c.add(h)
-                        c.add("views 0"); c.add("probe 0"); c.add("info 0"); c.add("push 0 w0"); c.add("views 0"); c.add("probe 0")
+                        c.add("views 0"); c.add("probe 0"); c.add("info 0")
+                        if rng.random() < 0.5: c.add("rawrt 0"); c.add("views 0")
+                        c.add("push 0 w0"); c.add("views 0"); c.add("probe 0")
                         teardown(c); cases.append(c)
     return cases
 
@@ -664,7 +669,7 @@ def gen_c17(tier, seed):
                         c.add("info 0"); c.add(first); c.add("info 0"); c.add("probe 0")
                         c.add(a)
                         if a.startswith("clone"): c.nvec += 1
-                        c.add("rawrt 0"); c.add("probe 0"); c.add("info 0")
+                        c.add("rawrt 0"); c.add("probe 0"); c.add("info 0"); c.add("views 0")
                         teardown(c); cases.append(c)
     return cases
 
